@@ -244,6 +244,9 @@ func genOps(prop string, r *Rng, n int, tier string, emit func(string)) {
 				emit("reenc " + hx(d))
 			case 5:
 				f := genDecodeInput(r, k)
+				if r.Chance(1, 8) { // REMB with every kind of exponent/mantissa pair, normalised or not
+					f = rembWire(r, r.Intn(64), r.Pick(0, 0, 1, 2, 0x3FFFF, int(r.Bits(18, 18))), r.Len(3, 0))
+				}
 				emit("reenc " + hx(f))
 			}
 		}
